@@ -35,7 +35,7 @@ def make_classes():
             for k in ('ref', 'ref0', 'res_ref'):
                 if o.get(k) is not None:
                     v = o[k]
-                    kw[k] = np.array([fl(x) for x in v]).reshape(o['shape']) if isinstance(v, list) and v and isinstance(v[0], list) else fl(v)
+                    kw[k] = np.array([fl(x) for x in v['arr']]).reshape(o['shape']) if isinstance(v, dict) else fl(v)
             self.add_output(o['name'], val=np.array([fl(v) for v in o['val']]).reshape(o['shape']), **kw)
 
     def _blocks(self):
@@ -245,8 +245,8 @@ def make_solver(spec, kind):
             return om.LinearBlockJac(**base)
         if name == 'krylov':
             base['maxiter'] = 200
-            base['atol'] = 1e-13
-            base['rtol'] = 1e-13
+            base['atol'] = 1e-10
+            base['rtol'] = 1e-12
             return om.ScipyKrylov(**base)
     raise ValueError(spec)
 
@@ -312,7 +312,7 @@ def build(md, cfg=None, setup=True):
         if dv.get('indices_term') is not None:
             kw['indices'] = term_to_py(dv['indices_term'])
             kw['flat_indices'] = bool(dv.get('flat_indices', False))
-        p.model.add_design_var(dv['name'], **_fl(kw))
+        p.model.add_design_var(dv['name'] or out_path(md, dv['oid']), **_fl(kw))
     for rs in md.get('responses', []):
         kw = {k: v for k, v in rs.items() if k not in ('name', 'oid', 'indices_term', 'flat_indices', 'type') and v is not None}
         if rs.get('indices_term') is not None:
@@ -320,9 +320,9 @@ def build(md, cfg=None, setup=True):
             kw['flat_indices'] = bool(rs.get('flat_indices', False))
         if rs.get('type') == 'obj':
             kw.pop('indices', None)
-            p.model.add_objective(rs['name'], **_fl(kw))
+            p.model.add_objective(rs['name'] or out_path(md, rs['oid']), **_fl(kw))
         else:
-            p.model.add_constraint(rs['name'], **_fl(kw))
+            p.model.add_constraint(rs['name'] or out_path(md, rs['oid']), **_fl(kw))
     if setup:
         p.setup(mode=cfg.get('mode', 'auto'), force_alloc_complex=bool(cfg.get('force_alloc_complex', False)))
     return p
@@ -362,12 +362,11 @@ def _realise_promote(md, i, groups):
         g.promotes(sub, inputs=[(name, alias) if alias != name else name], **kw)
         name = alias
         sub = gparts[len(gparts) - lvl - 1] if lvl < len(gparts) else None
-    top = '.'.join(gparts[:len(gparts) - len(pl)])
+    top = '.'.join(gparts[:len(gparts) - (len(pl) - 1)])
     if i.get('psrc') == 'auto':
         return
     s = out_path(md, i['src'])
     tprom = (top + '.' if top else '') + name
-    base = lca(s, tprom + '.x')            # lca() strips the last two parts (comp.var); emulate with a dummy part
     base = _lca_groups(s, tprom)
     kw = {}
     if i.get('clink') is not None:
